@@ -364,4 +364,48 @@ theorem mem_names_foldl (d : Doc) : ∀ (m : Mem) (t : String),
           · subst h1; exact absurd (hxe.1 ▸ hxe.2) hv
           · exact Or.inr ⟨x, h1, hxe⟩
 
+/-! ### a pause is never undone by a later entry -/
+
+theorem modFirst_exists {α : Type} (P : α → Prop) (p : α → Bool) (f : α → α) (hf : ∀ x, P x → P (f x)) :
+    ∀ l : List α, (∃ x ∈ l, P x) → ∃ x ∈ modFirst p f l, P x := by
+  intro l
+  induction l with
+  | nil => intro h; simpa using h
+  | cons y ys ih =>
+    rintro ⟨x, hx, hP⟩
+    simp only [modFirst]
+    rcases List.mem_cons.mp hx with h | h
+    · subst h
+      split
+      · exact ⟨f x, List.mem_cons_self .., hf x hP⟩
+      · exact ⟨x, List.mem_cons_self .., hP⟩
+    · split
+      · exact ⟨x, List.mem_cons_of_mem _ h, hP⟩
+      · obtain ⟨z, hz, hPz⟩ := ih ⟨x, h, hP⟩
+        exact ⟨z, List.mem_cons_of_mem _ hz, hPz⟩
+
+def PausedTopic (t : String) (x : Topic) : Prop := x.name = t ∧ x.paused = true
+
+theorem loadTopicEntry_keeps_pause (m : Mem) (e : TopicM) (t : String) (h : ∃ x ∈ m, PausedTopic t x) :
+    ∃ x ∈ loadTopicEntry m e, PausedTopic t x := by
+  have he : ∃ x ∈ ensureTopic m e.name, PausedTopic t x := by
+    obtain ⟨x, hx, hP⟩ := h
+    unfold ensureTopic
+    split
+    · exact ⟨x, hx, hP⟩
+    · exact ⟨x, List.mem_append_left _ hx, hP⟩
+  unfold loadTopicEntry
+  split
+  · apply modFirst_exists (PausedTopic t) _ _ (by intro x hx; exact hx)
+    split
+    · exact modFirst_exists (PausedTopic t) _ _ (by intro x hx; exact ⟨hx.1, rfl⟩) _ he
+    · exact he
+  · exact h
+
+theorem foldl_keeps_pause (d : Doc) (t : String) : ∀ m : Mem, (∃ x ∈ m, PausedTopic t x) →
+    ∃ x ∈ d.foldl loadTopicEntry m, PausedTopic t x := by
+  induction d with
+  | nil => intro m h; exact h
+  | cons e rest ih => intro m h; exact ih _ (loadTopicEntry_keeps_pause m e t h)
+
 end Nsq.Proofs.MetaLoad
